@@ -93,6 +93,7 @@ func (p Point) CostT(alt int) int {
 // Exec is one controlled execution.
 type Exec struct {
 	mu       sync.Mutex
+	id       uint64 // execution number: model state inside sync objects is reset when it is from an older execution
 	threads  []*thread
 	byLabel  sync.Map
 	chans    map[unsafe.Pointer]*chanState
@@ -133,6 +134,7 @@ type Exec struct {
 }
 
 var cur atomic.Pointer[Exec]
+var execSeq atomic.Uint64
 
 func mix(a, b uint64) uint64 {
 	x := a ^ (b + 0x9e3779b97f4a7c15 + (a << 6) + (a >> 2))
@@ -595,6 +597,7 @@ func Run(o RunOpts, body func()) *Exec {
 	e := &Exec{prefix: o.Prefix, expect: o.Expect, chans: map[unsafe.Pointer]*chanState{}, atoms: map[uintptr]*uint64{},
 		finished: make(chan struct{}), horizon: o.Horizon, boundP: o.BoundP, boundT: o.BoundT, table: o.table,
 		seqMode: o.SeqMode, tracing: o.Trace, sysH: 3, logH: 5, clockH: 9}
+	e.id = execSeq.Add(1)
 	if !cur.CompareAndSwap(nil, e) {
 		panic("vsched: nested Run")
 	}
